@@ -185,7 +185,7 @@ pub fn run_lng(toks: &[&str]) -> String {
     format!("len:{} {}", path.len(), run_seg(&t2))
 }
 
-/// pubr <n1> <cut> <n2> <mask> { record }*(n1+n2) : a daemon publishes n1 records and goes away; the file is cut to <cut>
+/// pubr <n1> <cut> <n2> <mask> <ver> { record }*(n1+n2) : a daemon publishes n1 records and goes away; the file is cut to <cut>
 /// bytes (72: left whole); a second daemon starts over it and publishes n2 records.  A client attached after the first
 /// publication calls snapshot() after every publication of the first daemon, and after publication j (0-based) of the
 /// second one iff bit j of <mask> is set, and after the last one; a fresh client attaches at the end.  No shim.
@@ -193,6 +193,10 @@ pub fn run_lng(toks: &[&str]) -> String {
 pub fn run_pubr(toks: &[&str]) -> String {
     static SEQ: std::sync::atomic::AtomicUsize = std::sync::atomic::AtomicUsize::new(0);
     let (n1, cut, n2, mask): (usize, u64, usize, u64) = (p(toks[0]), p(toks[1]), p(toks[2]), p(toks[3]));
+    // <ver>: the layout version the header carries while the client attaches (the first daemon's publications leave it
+    // alone; a daemon that takes the segment over stamps its own)
+    let ver: u16 = p(toks[4]);
+    let toks = &toks[1..];
     let path = scratch_dir().join(format!("pubr-{}", SEQ.fetch_add(1, std::sync::atomic::Ordering::SeqCst)));
     let _ = std::fs::remove_file(&path);
     let cpath = std::ffi::CString::new(path.to_str().unwrap()).unwrap();
@@ -217,6 +221,11 @@ pub fn run_pubr(toks: &[&str]) -> String {
         for k in 0..n1 {
             w.write(&rec(k));
             if long_lived.is_none() {
+                if ver != 1 {
+                    use std::os::unix::fs::FileExt;
+                    let f = std::fs::OpenOptions::new().write(true).open(&path).expect("segment file");
+                    f.write_all_at(&ver.to_ne_bytes(), 12).expect("poke version");
+                }
                 long_lived = ShmReader::new(cpath.as_c_str()).ok();
             }
             out.push(match long_lived.as_mut() {
